@@ -449,13 +449,13 @@ func (f *FlowDataLocator) PutIItemAwareLocator(name string, locator IItemAwareLo
 func (f *FlowDataLocator) CloneItems(name string) map[string]IItem {
 	out := make(map[string]IItem)
 
-	f.vmu.RLock()
+	f.lmu.RLock()
 	locator, ok := f.locators[name]
 	if !ok {
-		f.vmu.RUnlock()
+		f.lmu.RUnlock()
 		return out
 	}
-	f.vmu.RUnlock()
+	f.lmu.RUnlock()
 
 	return locator.Clone()
 }
